@@ -54,7 +54,7 @@ func c07GenAdmit(r *rng) c07AdmitIn {
 		}
 		in.Gov = g
 	}
-	if r.chance(8) {
+	if r.chance(8) && in.Gov == nil {
 		return in // fully valid
 	}
 	p := pick(r, c07Respects)
@@ -77,6 +77,34 @@ func c07GenAdmit(r *rng) c07AdmitIn {
 		}
 		if q != "" && q != p {
 			in.Respects = append(in.Respects, q)
+		}
+	}
+	// probe the limit that was just changed
+	if g := in.Gov; g != nil {
+		hasR := func(x string) bool {
+			for _, y := range in.Respects {
+				if y == x {
+					return true
+				}
+			}
+			return false
+		}
+		add := func(x string) {
+			if !hasR(x) && !hasR("onchain") && len(in.Respects) < 3 {
+				in.Respects = append(in.Respects, x)
+			}
+		}
+		if g.VubInc != 0 && r.chance(60) && !hasR("expired") && !hasR("notyet") && !hasR("vub-max") {
+			add(pick(r, []string{"notyet", "vub-max"}))
+		}
+		if g.Fpb != 0 && r.chance(35) && !hasR("outofgas") {
+			add("smallfee")
+		}
+		if g.ExecFee != 0 && r.chance(35) && !hasR("smallfee") {
+			add("outofgas")
+		}
+		if g.ConfFee != 0 && r.chance(50) {
+			add("conf-ok")
 		}
 	}
 	sort.Strings(in.Respects)
